@@ -13,7 +13,7 @@ enum EvKind : uint8_t {
   EV_LOCK_REQ = 1, EV_LOCK_ACQ, EV_UNLOCK, EV_CV_WAIT, EV_CV_WAKE, EV_NOTIFY_ONE, EV_NOTIFY_ALL,
   EV_THREAD_CREATE, EV_THREAD_START, EV_THREAD_EXIT, EV_JOIN_REQ, EV_JOIN_DONE,
   EV_LOOK, EV_RELOOK, EV_LOAD_BEGIN, EV_LOAD_END, EV_EXPORT_BEGIN, EV_EXPORT_END, EV_GROUP,
-  EV_SPY_ENTER, EV_SPY_EXIT, EV_SPURIOUS, EV_IO_READ, EV_IO_WRITE, EV_IO_SEEK, EV_TRYLOCK, EV_TIMEOUT, EV_ATOMIC, EV_MEM, EV_YIELD,
+  EV_SPY_ENTER, EV_SPY_EXIT, EV_SPURIOUS, EV_IO_READ, EV_IO_WRITE, EV_IO_SEEK, EV_TRYLOCK, EV_TIMEOUT, EV_ATOMIC, EV_MEM, EV_YIELD, EV_CV_ENTER,
   EV_KIND_MAX
 };
 const char *ev_name(int k);
